@@ -314,7 +314,7 @@ func init() {
 		return &spec{ID: id, Engine: "netsim", Scenarios: scen, Quick: quick, Thorough: thorough, Batch: 1, KnownPct: 10, TimeoutS: 60, Rule: rule, Assume: netAssume}
 	}
 	specs["C02"] = net("C02", 2400, 200000, "one case = one simulated server lifetime: the real server (Serve, HandleMsg4, plugin chain with the range plugin, sqlite lease store) with 1..16 DHCPv4 clients sending 2..40 DISCOVER/REQUEST messages (bursts, duplicates, drops, delays), 0..6 crash/restarts on the same database, schedule and faults drawn from the run's tape; distinct = distinct (context-switch hash, reply-sequence hash); non-trivial = at least 2 datagrams delivered to the server", "lease4", "lease4", "lease4-crash", "lease4-sqlfault")
-	specs["C11"] = net("C11", 2400, 200000, "one case = one simulated server lifetime under a drawn plugin chain with 2..30 DHCPv4 datagrams whose opcode, message type (incl. absent / malformed), xid, htype, hlen, flags, giaddr, ciaddr, options 82/61 and parameter list are drawn from the tape, some truncated, bit-flipped or with hlen>16, duplicated and reordered so that several are in flight together; every captured reply is attributed to the handler task that wrote it; distinct = distinct (context-switch hash, reply-sequence hash); non-trivial = at least 2 datagrams delivered", "wire4")
+	specs["C11"] = net("C11", 2400, 200000, "one case = one simulated server lifetime under a drawn plugin chain with 2..30 DHCPv4 datagrams whose opcode, message type (incl. absent / malformed), xid, htype, hlen, flags, giaddr, ciaddr, options 82/61 and parameter list are drawn from the tape, some truncated, bit-flipped or with hlen>16, duplicated and reordered so that several are in flight together; every captured reply is attributed to the handler task that wrote it; distinct = distinct (context-switch hash, reply-sequence hash); non-trivial = at least 2 datagrams delivered", "wire4", "wire4", "wire4", "lease4-sqlfault")
 	specs["C15"] = net("C15", 2400, 200000, "as C11 (scenario wire4): giaddr/ciaddr drawn from {zero, routable, link-local, broadcast, loopback, multicast} x broadcast flag x OFFER/ACK/NAK (NAK from a synthetic plugin) x yiaddr x bound/unbound listeners x receiving interface 2..4; the L2 frame built by the real sendEthernet is parsed independently", "wire4")
 	specs["C13"] = net("C13", 2400, 200000, "one case = one configuration of 0..5 plugins per protocol (synthetic plugins registered through plugins.RegisterPlugin that pass / modify / replace / stop / stop-with-nil / fail setup / return a nil handler, v4-only, v6-only or dual, mixed with built-in pass-through plugins and unknown names), started through the real config.Load (YAML file) and LoadPlugins with 1..3 listeners per protocol sharing the handler slice, then 2..14 DHCPv4/DHCPv6 requests handled concurrently; the invocation log of every datagram (request/response object identity, order, stop) and the response that reaches the wire are compared with the configuration; distinct = distinct (context-switch hash, reply-sequence hash); non-trivial = at least 2 datagrams delivered or a rejected start-up", "chain")
 	specs["C08"] = net("C08", 2400, 200000, "one case = one simulated server lifetime with the prefix plugin (pools of 2..64 blocks on both sides of bit 64) and 1..8 DHCPv6 clients (every DUID kind, equal-prefix DUIDs, direct or relayed 1..3 deep) sending 2..36 SOLICIT/REQUEST/RENEW/REBIND with 0..3 IA_PD x 0..3 IAPrefix hints (none, ::/0, length-only, held by self, held by another client, in-pool free, longer than the allocation size, out of pool), in bursts with duplicates, drops, stalls and up to 30 simulated minutes passing while handlers are in flight; distinct = distinct (context-switch hash, reply-sequence hash); non-trivial = at least 2 datagrams delivered", "pd6")
